@@ -7,7 +7,7 @@ ID = "C07"
 LEVEL = "proof"
 TRUSTED = dc.TRUSTED
 ASSUMPTIONS = ["DATA-reader part; BDAT and whole-conversation cuts are tied by the conv probe"]
-RULE = ("conv probe: every octet offset at which the client stream of 6 conversations (DATA, BDAT, LMTP, LMTP+BDAT, marker payload, AUTH+DATA) can be cut, backends propagating reader errors; dr probe: every cut point 0..len of every terminated stream over {'.',CR,LF,'a'} up to the tier's length "
+RULE = ("conv probe, abandoned transfers: a chunked transfer given up by RSET / a second HELO, EHLO or LHLO / QUIT, then BDAT LAST, BDAT, DATA: the abandoned message never ends with EOF | " "conv probe: every octet offset at which the client stream of 6 conversations (DATA, BDAT, LMTP, LMTP+BDAT, marker payload, AUTH+DATA) can be cut, backends propagating reader errors; dr probe: every cut point 0..len of every terminated stream over {'.',CR,LF,'a'} up to the tier's length "
         "(source ends with EOF or a scripted error), with and without size limit, 3 read schedules; random streams cut "
         "at random points. non-trivial = the cut stream is non-empty and contains '.', CR or LF")
 THEOREMS = ["C07_data_cut", "C07_eof_complete", "data_monitor_accepts_model"]
@@ -41,7 +41,31 @@ def groups(tier, rng):
                               sched(rng.choice(["all", 1, 3, "mixed"]), len(c), rng), rng.choice(["eof", "err"])))
     return [Group("dr/every-cut", enum, theorems=THEOREMS),
             Group("dr/random-cuts", rnd, theorems=THEOREMS),
-            Group("conv/every-cut", P.cut_convs(tier, rng), project=_proj, theorems=THEOREMS)]
+            Group("conv/every-cut", P.cut_convs(tier, rng), project=_proj, theorems=THEOREMS),
+            Group("conv/abandoned-transfers", abandoned(tier, rng), project=_proj, theorems=THEOREMS)]
+
+
+def abandoned(tier, rng):
+    """a chunked transfer given up between chunks by something other than a lost connection — RSET, a second greeting of
+    any kind, QUIT, STARTTLS — and then an attempt to finish it: the abandoned message is incomplete whatever follows"""
+    from vlib import convgen as g
+    cases = []
+    enders = [b"RSET\r\n", b"HELO again\r\n", b"EHLO again\r\n", b"helo x\r\n", b"QUIT\r\n", b"LHLO again\r\n"]
+    finishers = [b"BDAT 0 LAST\r\n", b"BDAT 3 LAST\r\nxyz", b"BDAT 3\r\nxyz", b"DATA\r\nxyz\r\n.\r\n", b"NOOP\r\n"]
+    for lm in (0, 1):
+        for ender in enders:
+            if (ender.upper().startswith(b"LHLO")) != bool(lm) and ender.upper().startswith((b"LHLO", b"EHLO", b"HELO")):
+                continue
+            for fin in finishers:
+                c = g.Conv(dict(lmtp=lm, lmtpsess=rng.choice([0, 1]) if lm else 0))
+                P.envelope(c, bool(lm))
+                c.add(b"BDAT 5\r\nhello", DATA=g.ddec(ret="prop"))
+                c.add(ender, **({"NS": "ok"} if ender[:4].upper() in (b"EHLO", b"HELO", b"LHLO") else {}))
+                c.add(fin)
+                c.add(b"NOOP\r\n")
+                for seg in ("one", "line"):
+                    cases.append(c.case(seg=seg, rng=rng) + "\tTAG=incomplete:0")
+    return cases
 
 
 def replay_groups(path):
